@@ -12,7 +12,7 @@ one() {
   rm -rf "$D"
 }
 N=0
-for d in seeded/C*-*; do
+for d in ${SEEDS:-seeded/C*-*}; do
   one "$d" "$B" &
   N=$((N+1))
   if [ $((N % P)) -eq 0 ]; then wait; fi
